@@ -41,6 +41,24 @@ def host_name_inputs():
     return inputs
 
 
+def date_inputs():
+    """HTTP dates at the ends of the calendar, with and without zone designators, alone and inside a header block (whose list
+    parser composes every parsed field again for its size bookkeeping)."""
+    dates = ['Fri, 31 Dec 9999 23:59:59', 'Mon, 01 Jan 0001 00:00:00', 'Fri, 31 Dec 9999 23:59:59 GMT', 'Mon, 01 Jan 0001 00:00:00 GMT',
+             'Fri, 31 Dec 9999 23:59:59 -0100', 'Mon, 01 Jan 0001 00:00:00 +0100', 'Fri, 31 Dec 9999 23:59:59 +1400',
+             'Mon, 01 Jan 0001 00:00:00 -1200', 'Thu, 01 Jan 1970 00:00:00', 'Sat, 29 Feb 2025 00:00:00 GMT', 'Tue, 19 Jan 2038 03:14:08 GMT',
+             'Sun, 06 Nov 1994 08:49:37 GMT', 'Sunday, 06-Nov-94 08:49:37 GMT', 'Sun Nov  6 08:49:37 1994', '0', '-1', '99999999999999999999',
+             'Fri, 31 Dec 10000 00:00:00 GMT', 'Thu, 01 Jan 0000 00:00:00 GMT']
+    inputs = []
+    for date in dates:
+        inputs.append(('cryptoparser.common.field:FieldValueDateTime', date.encode('ascii').hex()))
+        for field in ('Date', 'Expires', 'Last-Modified'):
+            inputs.append(('cryptoparser.httpx.header:HttpHeaderFields',
+                           ('Server: x\r\n%s: %s\r\n\r\n' % (field, date)).encode('ascii').hex()))
+        inputs.append(('cryptoparser.httpx.header:HttpHeaderFieldValueSetCookie', ('a=b; Expires=%s' % date).encode('ascii').hex()))
+    return inputs
+
+
 class Check(core.CheckBase):
     ID = 'C02'
     TECHNIQUE = 'runtime exception-type monitor on the parse entry points under mutation fuzzing of a seed corpus'
@@ -97,7 +115,7 @@ class Check(core.CheckBase):
                 index += 1
                 if self.mine(index):
                     yield {'kind': 'seed', 'cls': name, 'seed_index': seed_index, 'of': len(seeds)}
-        for cls_name, hex_input in TARGETED + host_name_inputs():
+        for cls_name, hex_input in TARGETED + host_name_inputs() + date_inputs():
             index += 1
             if self.mine(index) and cls_name in self.targets:
                 yield {'kind': 'input', 'cls': cls_name, 'hex': hex_input, 'entry': 'parse_immutable'}
